@@ -37,9 +37,14 @@ def roles(p):
         raise AnchorMissing("expected one function calling fs::rename, found %s" % [f.path for f in mv])
     r["move_file"] = mv[0]
     loops = [f for f in fns if f.back_edges() and any(f.in_loop(c.block) for c in f.calls(mv[0].path))]
+    as_adaptor = False
+    if not loops:
+        # the shift loop spelled `(base..last).rev().try_for_each(|i| ..)`: the loop it denotes
+        loops = [f for f in fns if p.fn_loops(f.path).back_edges() and any(p.fn_loops(f.path).in_loop(c.block) for c in p.fn_loops(f.path).calls(mv[0].path))]
+        as_adaptor = True
     if len(loops) != 1:
         raise AnchorMissing("expected one looping function calling the move helper in Cone(FixedWindowRoller::roll), found %s" % [f.path for f in loops])
-    r["rotate"] = p.fn_closure_calls(loops[0].path)     # a local closure naming the archive path is a local helper
+    r["rotate"] = p.fn_loops(loops[0].path) if as_adaptor else p.fn_closure_calls(loops[0].path)     # a local closure naming the archive path is a local helper
     rot = r["rotate"]
     head = loop_head(rot, mv[0].path)
     comp = [c for c in rot.calls() if c.callee in p.fns and not rot.in_loop(c.block) and c.callee != EXPAND and head is not None and rot.dominates(head, c.block)]
@@ -923,6 +928,29 @@ def rule_final_step(ctx, p, cfg, rid="R3"):
         # reached only through loop exhaustion
         conds = rot.conditions(cs.block)
         okx = any(m["exit"](sb, si, al) for sb, si, al in conds)
+        if not okx:
+            # `range.try_for_each(|i| ..)?`: exhaustion and a failed step leave the loop towards one join, and the `?` behind it
+            # sends only the exhausted loop on.  Accepted when the final move is outside the loop, behind its head, and cannot be
+            # reached from the failure edge of any in-loop step (flags and Result values followed).
+            mvs_ = [c for c in rot.calls(ro["move_file"].path) if rot.in_loop(c.block)]
+            errs_ = []
+            for blk in rot.blocks:
+                if blk["term"]["k"] != "switch" or blk["id"] not in rot.reachable_blocks():
+                    continue
+                si_ = SwitchInfo(rot, blk["id"])
+                d_ = strip(si_.discr)
+                if d_[0] != "discr":
+                    continue
+                inner_ = strip(d_[1])
+                if inner_[0] == "call" and inner_[1].endswith("Try::branch") and inner_[2]:
+                    inner_ = strip(inner_[2][0])
+                if inner_[0] == "call" and len(inner_) > 3 and any(inner_[3] == c.block for c in mvs_):
+                    good_ = {t_ for lab_, t_ in si_.labelled_edges() if lab_ in ("Ok", "Continue")}
+                    if si_.target_of("Err") is not None or si_.target_of("Break") is not None:
+                        errs_.append((blk["id"], {(blk["id"], t_) for t_ in good_}))
+            # start at the switch itself, with its success edge cut: the value is known to be the failure on the edge taken
+            okx = bool(mvs_) and bool(errs_) and not rot.in_loop(cs.block) and all(rot.dominates(c.block, cs.block) or rot.can_reach(c.block, cs.block) for c in mvs_) and \
+                not any(q.const_skipping_paths(rot, sb_, set(), {cs.block}, cut_edges=cut_) for sb_, cut_ in errs_)
         r.require(okx, "after-the-shift", fn=rot, site=cs.at, detail="the final move runs after the shift loop is exhausted")
         args = cs.arg_exprs()
         filearg = [a for a in args if deep_strip(a) == ("param", pr["file"])]
